@@ -263,6 +263,16 @@ def items(cfg):
                      'DIM q6(1 TO 3)'):
             out.append(('DIM zbig(1 TO %d) AS INTEGER\n%s' % (n, tail), 0,
                         False))
+    # record types that contain themselves: in both tiers
+    for body in ('TYPE t4\nq AS t4\nEND TYPE\nDIM zz AS t4',
+                 'TYPE t4\nq AS t4\nEND TYPE\nDIM zz(2) AS t4\n'
+                 'zz(1).q.q = 1',
+                 'TYPE t4\nq AS LONG\nw AS t4\nEND TYPE\nDIM SHARED zz AS t4',
+                 'TYPE t5\nx AS t6\nEND TYPE\nTYPE t6\ny AS t5\nEND TYPE\n'
+                 'DIM zz AS t5',
+                 'TYPE t4\nq AS t4\nEND TYPE'):
+        out.append((body, 0, False))
+        out.append((body, 0, True))
     # extreme constants into every numeric target type: in both tiers
     for v in EXTREME:
         for tpl in EXTREME_TEMPLATES:
